@@ -54,7 +54,7 @@ Definition value_is (a b : value) : bool :=
 (* AbstractCommand.can_execute: the feature object is the one the owner's class finds under that name *)
 Definition base_can (m : mm) (x : oid) (f : fid) : bool := applicable m x f.
 
-(* ---------- Delete.can_execute: the snapshot ---------- *)
+(* ---------- Delete._snapshot (first statement of do_execute) ---------- *)
 Definition delete_elements (m : mm) (s : state) (x : oid) : list oid :=
   x :: eallcontents (S (length (ocls m))) m s x.
 
@@ -124,12 +124,7 @@ Fixpoint can_execute (m : mm) (s : state) (c : cmd) {struct c} : res bool * cmd 
                   end
         end
       end
-  | CDelete x _ _ =>
-    let els := delete_elements m s x in
-    match snap_invs m s els with
-    | Ok iv => (Ok true, CDelete x (snap_refs m s els) iv)
-    | Err e => (Err e, c)
-    end
+  | CDelete x _ _ => (Ok true, c)
   | CCompound cs =>
     (* all(command.can_execute for command in self): stops at the first False *)
     let fix go (l : list cmd) : res bool * list cmd :=
@@ -144,88 +139,9 @@ Fixpoint can_execute (m : mm) (s : state) (c : cmd) {struct c} : res bool * cmd 
     let '(b, cs') := go cs in (b, CCompound cs')
   end.
 
-(* ---------- execute ---------- *)
+(* ---------- undo ---------- *)
 Definition raised (o : outcome) : bool := match fst o with Some _ => true | None => false end.
 
-(* position list.insert / OrderedSet.insert really uses *)
-Definition ins_pos (len i : Z) : Z := clamp_index len i.
-
-Definition do_move (m : mm) (s : state) (x : oid) (f : fid) (v : value) (from : option Z) (to : Z)
-  : outcome * cmd :=
-  let l := vals s (x, f) in
-  let fr := match from with Some i => if i <? 0 then i + zlen l else i | None => 0 end in
-  match coll_pop_full m s (x, f) fr with
-  | ((Some e, s1), _) => ((Some e, s1), CMove x f v (Some fr) to)
-  | ((None, s1), w) =>
-    let v1 := match w with Some w' => w' | None => v end in
-    let to' := ins_pos (zlen (vals s1 (x, f))) to in
-    (coll_add_full m s1 (x, f) (Some to') v1, CMove x f v1 (Some fr) to')
-  end.
-
-Fixpoint execute (m : mm) (s : state) (c : cmd) {struct c} : outcome * cmd :=
-  match c with
-  | CSet x f v _ =>
-    (* self.previous_value = object_.eGet(self.feature); object_.eSet(self.feature, self.value) *)
-    (set_full m s (x, f) v, CSet x f v (single s (x, f)))
-  | CAdd x f v idx =>
-    match idx with
-    | Some i =>
-      let i' := ins_pos (zlen (vals s (x, f))) i in
-      (coll_add_full m s (x, f) (Some i') v, CAdd x f v (Some i'))
-    | None =>
-      (coll_add_full m s (x, f) None v, CAdd x f v (Some (zlen (vals s (x, f)))))
-    end
-  | CRemove x f v idx =>
-    let l := vals s (x, f) in
-    let ri := match idx with
-              | None => match index_of veqb v l with
-                        | Some n => Ok (Z.of_nat n)
-                        | None => Err (lookup_err m f)
-                        end
-              | Some i => Ok (if i <? 0 then i + zlen l else i)
-              end in
-    match ri with
-    | Err e => ((Some e, s), c)
-    | Ok i =>
-      let '(o, w) := coll_pop_full m s (x, f) i in
-      (o, CRemove x f (match w with Some w' => w' | None => v end) (Some i))
-    end
-  | CMove x f v from to => do_move m s x f v from to
-  | CDelete x r i => ((None, delete_obj (S (length (ocls m))) m s x true), c)
-  | CCompound cs =>
-    let fix go (s0 : state) (l : list cmd) : outcome * list cmd :=
-        match l with
-        | [] => ((None, s0), [])
-        | c1 :: r =>
-          let '(o, c1') := execute m s0 c1 in
-          if raised o then (o, c1' :: r)
-          else let '(o', r') := go (snd o) r in (o', c1' :: r')
-        end in
-    let '(o, cs') := go s cs in (o, CCompound cs')
-  end.
-
-(* ---------- can_undo ---------- *)
-Fixpoint can_undo (m : mm) (s : state) (c : cmd) {struct c} : res bool :=
-  match c with
-  | CSet _ _ _ _ => Ok true
-  | CAdd x f v _ => Ok (vmem v (vals s (x, f)))
-  | CRemove _ _ _ _ => Ok true
-  | CMove x f v _ to =>
-    match py_get to (vals s (x, f)) with
-    | Some w => Ok (value_is w v)
-    | None => Err IndexErr
-    end
-  | CDelete _ _ _ => Ok true
-  | CCompound cs =>
-    let fix go (l : list cmd) : res bool :=
-        match l with
-        | [] => Ok true
-        | c1 :: r => match can_undo m s c1 with Ok true => go r | b => b end
-        end in
-    go cs
-  end.
-
-(* ---------- undo ---------- *)
 Definition idx_or0 (i : option Z) : Z := match i with Some z => z | None => 0 end.
 
 (* Delete.undo, first loop: the deleted elements get their own references back *)
@@ -287,6 +203,109 @@ Fixpoint undo (m : mm) (s : state) (c : cmd) {struct c} : outcome * cmd :=
     let '(o, cs') := go s cs in (o, CCompound cs')
   end.
 
+(* ---------- execute ---------- *)
+(* position list.insert / OrderedSet.insert really uses *)
+Definition ins_pos (len i : Z) : Z := clamp_index len i.
+
+Definition do_move (m : mm) (s : state) (x : oid) (f : fid) (v : value) (from : option Z) (to : Z)
+  : outcome * cmd :=
+  let l := vals s (x, f) in
+  let fr := match from with Some i => if i <? 0 then i + zlen l else i | None => 0 end in
+  match coll_pop_full m s (x, f) fr with
+  | ((Some e, s1), _) => ((Some e, s1), CMove x f v (Some fr) to)
+  | ((None, s1), w) =>
+    let v1 := match w with Some w' => w' | None => v end in
+    let to' := ins_pos (zlen (vals s1 (x, f))) to in
+    (coll_add_full m s1 (x, f) (Some to') v1, CMove x f v1 (Some fr) to')
+  end.
+
+(* Delete.do_execute: self._snapshot(); self.owner.delete() *)
+Definition do_delete (m : mm) (s : state) (x : oid) : outcome * cmd :=
+  let els := delete_elements m s x in
+  match snap_invs m s els with
+  | Ok iv => ((None, delete_obj (S (length (ocls m))) m s x true), CDelete x (snap_refs m s els) iv)
+  | Err e => ((Some e, s), CDelete x [] [])
+  end.
+
+(* the except branch of Compound.execute: l = executed members, most recent first; an undo that
+   raises replaces the exception being handled *)
+Fixpoint rollback (m : mm) (l : list cmd) (s : state) : outcome :=
+  match l with
+  | [] => (None, s)
+  | c :: r => let o := fst (undo m s c) in if raised o then o else rollback m r (snd o)
+  end.
+
+Fixpoint execute (m : mm) (s : state) (c : cmd) {struct c} : outcome * cmd :=
+  match c with
+  | CSet x f v _ =>
+    (* self.previous_value = object_.eGet(self.feature); object_.eSet(self.feature, self.value) *)
+    (set_full m s (x, f) v, CSet x f v (single s (x, f)))
+  | CAdd x f v idx =>
+    match idx with
+    | Some i =>
+      let i' := ins_pos (zlen (vals s (x, f))) i in
+      (coll_add_full m s (x, f) (Some i') v, CAdd x f v (Some i'))
+    | None =>
+      (coll_add_full m s (x, f) None v, CAdd x f v (Some (zlen (vals s (x, f)))))
+    end
+  | CRemove x f v idx =>
+    let l := vals s (x, f) in
+    let ri := match idx with
+              | None => match index_of veqb v l with
+                        | Some n => Ok (Z.of_nat n)
+                        | None => Err (lookup_err m f)
+                        end
+              | Some i => Ok (if i <? 0 then i + zlen l else i)
+              end in
+    match ri with
+    | Err e => ((Some e, s), c)
+    | Ok i =>
+      let '(o, w) := coll_pop_full m s (x, f) i in
+      (o, CRemove x f (match w with Some w' => w' | None => v end) (Some i))
+    end
+  | CMove x f v from to => do_move m s x f v from to
+  | CDelete x _ _ => do_delete m s x
+  | CCompound cs =>
+    (* executed = []; try: for command in self: command.execute(); executed.append(command)
+       except: for command in reversed(executed): command.undo(); raise *)
+    let fix go (s0 : state) (acc : list cmd) (l : list cmd) : outcome * list cmd * list cmd :=
+        match l with
+        | [] => ((None, s0), [], acc)
+        | c1 :: r =>
+          let '(o, c1') := execute m s0 c1 in
+          if raised o then (o, c1' :: r, acc)
+          else let '(o', r', acc') := go (snd o) (c1' :: acc) r in (o', c1' :: r', acc')
+        end in
+    let '(o, cs', acc) := go s [] cs in
+    match o with
+    | (Some e, s1) =>
+      let o2 := rollback m acc s1 in
+      ((Some (match fst o2 with Some e2 => e2 | None => e end), snd o2), CCompound cs')
+    | _ => (o, CCompound cs')
+    end
+  end.
+
+(* ---------- can_undo ---------- *)
+Fixpoint can_undo (m : mm) (s : state) (c : cmd) {struct c} : res bool :=
+  match c with
+  | CSet _ _ _ _ => Ok true
+  | CAdd x f v _ => Ok (vmem v (vals s (x, f)))
+  | CRemove _ _ _ _ => Ok true
+  | CMove x f v _ to =>
+    match py_get to (vals s (x, f)) with
+    | Some w => Ok (value_is w v)
+    | None => Err IndexErr
+    end
+  | CDelete _ _ _ => Ok true
+  | CCompound cs =>
+    let fix go (l : list cmd) : res bool :=
+        match l with
+        | [] => Ok true
+        | c1 :: r => match can_undo m s c1 with Ok true => go r | b => b end
+        end in
+    go cs
+  end.
+
 (* ---------- redo ---------- *)
 Fixpoint redo (m : mm) (s : state) (c : cmd) {struct c} : outcome * cmd :=
   match c with
@@ -294,7 +313,7 @@ Fixpoint redo (m : mm) (s : state) (c : cmd) {struct c} : outcome * cmd :=
   | CAdd x f v idx => (coll_add_full m s (x, f) (Some (idx_or0 idx)) v, c)
   | CRemove x f v idx => (fst (coll_pop_full m s (x, f) (idx_or0 idx)), c)
   | CMove x f v from to => do_move m s x f v from to
-  | CDelete x r i => ((None, delete_obj (S (length (ocls m))) m s x true), c)
+  | CDelete x _ _ => do_delete m s x
   | CCompound cs =>
     let fix go (s0 : state) (l : list cmd) : outcome * list cmd :=
         match l with
